@@ -242,11 +242,13 @@ pub fn run_cut(args: &JArgs) -> Outcome {
                             if st != prefix_states[n - 1] {
                                 why = Some(format!("recovered state is not the {} complete batches", n - 1));
                             } else {
-                                // the file must have been truncated to the end of the last complete batch
+                                // the torn batch must be gone from the file: what parses as journal content
+                                // ends with the last complete batch (the physical length is the
+                                // implementation's business - the property speaks about later appends,
+                                // which are checked below)
                                 let jl = journal::read_prefix(&jp).map(|b| journal::parse(&b).valid_end).unwrap_or(0);
-                                let flen = std::fs::metadata(&jp).map(|m| m.len()).unwrap_or(0);
-                                if jl != last.start || flen as usize != last.start {
-                                    why = Some(format!("journal not truncated to the end of the last complete batch: len {flen}, expected {}", last.start));
+                                if jl != last.start {
+                                    why = Some(format!("journal content after the repair ends at byte {jl}, the last complete batch ends at {}", last.start));
                                 }
                             }
                         }
